@@ -90,82 +90,295 @@ def _flows_equal(w, a, b):
     return w.And(*[w.eq(a.get(k, 0.), b.get(k, 0.)) for k in sorted(keys)])
 
 
-# --------------------------------------------------------------------------- Stream.H / h / Hnet / S setters
+# --------------------------------------------------------------------------- H / h / Hnet / S setters (Stream and MultiStream)
 
-def set_single_configs(tier):
+def _solver_kind(prop, kind):
+    return ('x' if len(kind) > 1 else '') + ('SP' if prop == 'S' else 'HP')
+
+
+def set_configs(tier):
     out = []
-    phases = ['l', 'g', 's']
+    quick = tier == 'quick'
     for prop in ['H', 'h', 'Hnet', 'S']:
-        for ph in phases:
+        for kind in ['l', 'g', 's', 'gl', 'gls']:
+            multi = len(kind) > 1
+            if kind == 'gls' and quick and prop != 'H':
+                continue
             for fail in [0, 1]:
-                for mode in (['pos', 'pos+maybe'] if tier == 'quick' else ['pos+maybe', 'pos+pos']):
-                    for pkg in (['A'] if tier == 'quick' else ['A', 'A3']):
-                        out.append({'name': f'prop={prop};phase={ph};fail={fail};flows={mode};pkg={pkg}', 'prop': prop,
-                                    'phase': ph, 'fail': fail, 'mode': mode, 'pkg': pkg})
+                if prop == 'S':
+                    # the entropy of mixing brings log terms of the composition: keep the two-chemical case for the
+                    # successful solve in the quick tier (the others run with one chemical per phase)
+                    modes = ['pos'] + (['pos+maybe'] if (fail == 0 and not multi) or not quick else [])
+                elif multi:
+                    modes = ['first-row-pos'] + ([] if quick else ['pos+maybe'])
+                else:
+                    modes = ['pos+maybe'] + ([] if quick else ['pos+pos'])
+                for mode in modes:
+                    for pkg in (['A'] if quick or prop == 'S' else ['A', 'A3']):
+                        out.append({'name': f'prop={prop};phases={kind};fail={fail};flows={mode};pkg={pkg}', 'prop': prop,
+                                    'kind': kind, 'fail': fail, 'mode': mode, 'pkg': pkg})
     return out
 
 
-def _getter(s, prop):
-    return getattr(s, prop)
-
-
-@group('C02/set_single', configs=set_single_configs,
+@group('C02/set_value', configs=set_configs,
        functions=['thermosteam._stream:Stream.H', 'thermosteam._stream:Stream.h', 'thermosteam._stream:Stream.S',
                   'thermosteam._stream:Stream.Hnet', 'thermosteam._stream:Stream._get_property',
+                  'thermosteam._multi_stream:MultiStream.H', 'thermosteam._multi_stream:MultiStream.h',
+                  'thermosteam._multi_stream:MultiStream.S', 'thermosteam._multi_stream:MultiStream._get_property',
                   'thermosteam.mixture.mixture:Mixture.H', 'thermosteam.mixture.mixture:Mixture.S',
+                  'thermosteam.mixture.mixture:Mixture.xH', 'thermosteam.mixture.mixture:Mixture.xS',
                   'thermosteam.mixture.ideal_mixture_model:IdealTPMixtureModel.__call__',
                   'thermosteam.mixture.ideal_mixture_model:IdealEntropyModel.__call__'],
        assumptions=['A-models', 'A-root'])
-def set_single(w, cfg):
+def set_value(w, cfg):
+    """Assigning H/h/Hnet/S to a non-empty stream: reading it back returns the assigned value (every path, incl. fall-back)."""
     W.reset_caches()
-    prop = cfg['prop']
-    kind = 'SP' if prop == 'S' else 'HP'
-    th, log = _stub(w, cfg['pkg'], {kind: cfg['fail']})
-    s, leaves = W.stream_on(w, 's', th, cfg['phase'], present=_present(cfg['pkg'], cfg['phase'], cfg['mode']))
+    prop, kind = cfg['prop'], cfg['kind']
+    phases = KINDS[kind]
+    multi = len(kind) > 1
+    th, log = _stub(w, cfg['pkg'], {_solver_kind(prop, kind): cfg['fail']})
+    s, leaves = W.stream_on(w, 's', th, phases, present=_present(cfg['pkg'], phases, cfg['mode']))
     T0, P0 = s.T, s.P
     pre = W.total_by_CAS(s)
+    pre_rows = W.snapshot(s)
     value = w.real('value')
     try:
         setattr(s, prop, value)
     except SolveFailed:
-        # allowed only when there is no other phase to try (solid): the solver's error is passed on
-        w.ensure('solver failure is passed on only for phases without alternative', cfg['phase'] not in ('l', 'g'))
+        # the solver's error may be passed on only when there is no other phase to try
+        w.ensure('solver failure is passed on only where no other phase can be tried', multi or kind not in ('l', 'g'))
         w.ensure('failed assignment leaves T, P and the flows alone',
-                 w.And(w.eq(s.T, T0), w.eq(s.P, P0), _flows_equal(w, pre, W.total_by_CAS(s))))
+                 w.And(w.eq(s.T, T0), w.eq(s.P, P0), W.same_snapshot(w, pre_rows, W.snapshot(s))))
+        w.canary('canary: failed assignment moved T', w.ne(s.T, T0))
         return
-    back = _getter(s, prop)
+    back = getattr(s, prop)
     w.ensure(f'reading {prop} back returns the assigned value', w.eq(back, value))
     w.ensure('flows unchanged', _flows_equal(w, pre, W.total_by_CAS(s)))
     w.ensure('P unchanged', w.eq(s.P, P0))
     if cfg['fail'] == 0:
-        w.ensure('phase unchanged when the solve succeeds', s.phase == cfg['phase'])
+        w.ensure('phases and per-phase flows unchanged when the solve succeeds', W.same_snapshot(w, pre_rows, W.snapshot(s)))
     else:
-        w.ensure('fall-back flips l <-> g', s.phase == {'l': 'g', 'g': 'l'}.get(cfg['phase']))
+        w.ensure('fall-back flips l <-> g', (not multi) and s.phase == {'l': 'g', 'g': 'l'}.get(kind))
     w.canary('canary: T never moves', w.eq(s.T, T0))
     w.canary('canary: read-back is value + 1', w.eq(back, value + 1))
     w.note(T0=T0, T=s.T, back=back, log=list(log))
 
 
-def same_single_configs(tier):
-    return [{'name': f'prop={prop};phase={ph};pkg={pkg}', 'prop': prop, 'phase': ph, 'pkg': pkg}
-            for prop in ['H', 'h', 'Hnet', 'S'] for ph in ['l', 'g'] for pkg in (['A'] if tier == 'quick' else ['A', 'A3'])]
+def same_configs(tier):
+    quick = tier == 'quick'
+    out = []
+    for prop in ['H', 'h', 'Hnet', 'S']:
+        for kind in ['l', 'g', 'gl'] + ([] if quick else ['s', 'gls']):
+            for pkg in (['A'] if quick or prop == 'S' else ['A', 'A3']):
+                mode = 'pos' if prop == 'S' and (quick or len(kind) > 1) else ('first-row-pos' if len(kind) > 1 else 'pos+maybe')
+                out.append({'name': f'prop={prop};phases={kind};flows={mode};pkg={pkg}', 'prop': prop, 'kind': kind,
+                            'pkg': pkg, 'mode': mode})
+    return out
 
 
-@group('C02/set_same_value', configs=same_single_configs,
+@group('C02/set_same_value', configs=same_configs,
        functions=['thermosteam._stream:Stream.H', 'thermosteam._stream:Stream.h', 'thermosteam._stream:Stream.S',
-                  'thermosteam._stream:Stream.Hnet'],
+                  'thermosteam._stream:Stream.Hnet', 'thermosteam._multi_stream:MultiStream.H',
+                  'thermosteam._multi_stream:MultiStream.h', 'thermosteam._multi_stream:MultiStream.S'],
        assumptions=['A-models', 'A-root', 'A-root-stay'])
 def set_same_value(w, cfg):
+    """Assigning the value the stream already has leaves the temperature unchanged."""
     W.reset_caches()
-    prop = cfg['prop']
+    prop, kind = cfg['prop'], cfg['kind']
+    phases = KINDS[kind]
     th, log = _stub(w, cfg['pkg'])
-    s, leaves = W.stream_on(w, 's', th, cfg['phase'], present=_present(cfg['pkg'], cfg['phase'], 'pos+maybe'))
+    s, leaves = W.stream_on(w, 's', th, phases, present=_present(cfg['pkg'], phases, cfg['mode']))
     T0, P0 = s.T, s.P
     pre = W.snapshot(s)
-    current = _getter(s, prop)
+    current = getattr(s, prop)
     setattr(s, prop, current)
     w.ensure('assigning the current value leaves T unchanged', w.eq(s.T, T0))
-    w.ensure('P, phase, flows unchanged', w.And(w.eq(s.P, P0), s.phase == cfg['phase'],
-                                                 _flows_equal(w, pre['flows'], W.snapshot(s)['flows'])))
-    w.ensure('value still read back', w.eq(_getter(s, prop), current))
+    w.ensure('P, phases, flows unchanged', w.And(w.eq(s.P, P0), W.same_snapshot(w, pre, W.snapshot(s))))
+    w.ensure('value still read back', w.eq(getattr(s, prop), current))
     w.canary('canary: T doubles', w.eq(s.T, 2 * T0))
+
+
+# --------------------------------------------------------------------------- mix_from(energy_balance=True, Q)
+
+class _Heat:
+    """What `mix_from` treats as a heat/power object among `others`: anything (truthy) with a `.heat`."""
+    def __init__(self, heat): self.heat = heat
+
+
+def _inl(kind, pkg='A', mode='pos'):
+    return [kind, pkg, mode]
+
+
+def mix_configs(tier):
+    quick = tier == 'quick'
+    I = _inl
+    base = [  # (inlets, receivers)
+        ([I('l'), I('g')], ['l', 'g', 'gl']),
+        ([I('l'), I('l', 'B')], ['l']),
+        ([I('g', 'B'), I('l', mode='pos+maybe')], ['l', 'gl']),
+        ([I('l'), I('l', 'B', 'maybe')], ['l', 'g', 'gl']),            # second inlet may be empty -> single-inlet shortcut
+        ([I('l', mode='empty'), I('g', 'B')], ['l']),                    # exactly one non-empty inlet
+        ([I('SELF'), I('l', 'B')], ['l', 'gl']),                         # the receiver is one of the inlets
+        ([I('SELF'), I('g', mode='maybe')], ['l']),
+        ([I('gl'), I('l', 'B')], ['l', 'gl']),                           # multi-phase inlet
+        ([I('l'), I('g', 'B'), I('l', mode='maybe')], ['l']),
+    ]
+    if not quick:
+        base += [
+            ([I('l', mode='pos+maybe'), I('g', 'B', 'pos+maybe')], ['l', 'g', 'gl']),
+            ([I('s'), I('l')], ['l', 's', 'gls']),
+            ([I('l'), I('g', 'B'), I('l', 'B')], ['l', 'g', 'gl']),
+            ([I('SELF'), I('l', 'B'), I('g')], ['l', 'gl']),
+            ([I('SELF'), I('SELF')], ['l']),
+            ([I('gl'), I('gl', 'B')], ['l', 'gl']),
+            ([I('gl', mode='maybe'), I('l')], ['l', 'gl']),
+            ([I('l', mode='maybe'), I('g', 'B', 'maybe'), I('l', 'B')], ['l']),
+        ]
+    out = []
+    for inlets, recvs in base:
+        for r in recvs:
+            for q in (['none', 'kw', 'heat'] if quick else ['none', 'kw', 'heat', 'kw+heat', 'falsy']):
+                for opt in ['', 'conserve_phases']:
+                    if opt and (quick and q != 'kw'):
+                        continue
+                    nm = f"recv={r};in=" + '+'.join(f'{k}{p}:{m}' for k, p, m in inlets) + f';Q={q}' + (f';{opt}' if opt else '')
+                    out.append({'name': nm, 'recv': r, 'inlets': inlets, 'Q': q, 'fail': 0, 'opt': opt})
+    # failing temperature solves: 1 -> fall-back of the H setter (phase flip), 2 -> fall-back of mix_from (phases of the inlets)
+    for inlets, recvs in base[:3] + base[5:6]:
+        for r in recvs:
+            for fail in [1, 2]:
+                if len(r) > 1 and fail == 2: continue
+                for q in (['kw'] if quick else ['none', 'kw', 'heat']):
+                    nm = f"recv={r};in=" + '+'.join(f'{k}{p}:{m}' for k, p, m in inlets) + f';Q={q};fail={fail}'
+                    out.append({'name': nm, 'recv': r, 'inlets': inlets, 'Q': q, 'fail': fail, 'opt': ''})
+    return out
+
+
+def _min_of(w, value, candidates):
+    return w.And(w.Or(*[w.eq(value, c) for c in candidates]), *[w.le(value, c) for c in candidates])
+
+
+@group('C02/mix_from', configs=mix_configs,
+       functions=['thermosteam._stream:Stream.mix_from', 'thermosteam._stream:Stream.H', 'thermosteam._multi_stream:MultiStream.H',
+                  'thermosteam._stream:Stream.copy_like', 'thermosteam._stream:Stream._get_property',
+                  'thermosteam._multi_stream:MultiStream._get_property', 'thermosteam._stream:Stream.phases',
+                  'thermosteam.indexer:ChemicalIndexer.mix_from', 'thermosteam.indexer:MaterialIndexer.mix_from',
+                  'thermosteam.mixture.mixture:Mixture.H', 'thermosteam.mixture.mixture:Mixture.xH',
+                  'thermosteam.mixture.ideal_mixture_model:IdealTPMixtureModel.__call__'],
+       assumptions=['A-models', 'A-root'])
+def mix_from(w, cfg):
+    """H(receiver') = sum of the inlets' H (read before the call) + Q;  P' = min P over the non-empty inlets."""
+    W.reset_caches()
+    rkind = cfg['recv']
+    fail = cfg['fail']
+    plans = {'A': ({'xHP': fail} if len(rkind) > 1 else {'HP': fail})}
+    stubs = {}
+
+    def th(pkg):
+        if pkg not in stubs:
+            stubs[pkg] = _stub(w, pkg, plans.get(pkg))
+        return stubs[pkg][0]
+
+    recv, _ = W.stream_on(w, 'r', th('A'), KINDS[rkind], present=_present('A', KINDS[rkind], 'pos'))
+    inlets, frames = [], []
+    for n, (k, p, m) in enumerate(cfg['inlets']):
+        if k == 'SELF':
+            inlets.append(recv)
+        else:
+            s, _ = W.stream_on(w, f'i{n}', th(p), KINDS[k], present=_present(p, KINDS[k], m))
+            inlets.append(s)
+            frames.append((n, s, W.snapshot(s), s.T, s.P))
+    nonempty = [s for s in inlets if not s.isempty()]
+    if not nonempty:
+        return      # outside the quantifier (non-empty inlet sets)
+    # pre-state: enthalpy flows of the inlets and pressures, read through the public getters before the call
+    H_in = 0.
+    for s in inlets:
+        H_in = H_in + s.H
+    P_in = [s.P for s in nonempty]
+    Q_kw = Q_heat = 0.
+    others = list(inlets)
+    kw = {}
+    if 'kw' in cfg['Q']:
+        Q_kw = w.real('Q')
+        kw['Q'] = Q_kw
+    if 'heat' in cfg['Q']:
+        Q_heat = w.real('Q.heat')
+        others.insert(1, _Heat(Q_heat))
+    if cfg['Q'] == 'falsy':
+        others.append(None)        # falsy non-stream entries are skipped
+    if cfg['opt'] == 'conserve_phases':
+        kw['conserve_phases'] = True
+    recv.mix_from(others, energy_balance=True, **kw)
+    H_out = recv.H
+    w.ensure("H(receiver') = sum of inlet H + Q", w.eq(H_out, H_in + Q_kw + Q_heat))
+    w.ensure("P(receiver') = min P over the non-empty inlets", _min_of(w, recv.P, P_in))
+    for n, s, snap, T, P in frames:
+        w.ensure(f'inlet {n} unchanged (flows, phases, T, P)',
+                 w.And(W.same_snapshot(w, snap, W.snapshot(s)), w.eq(s.T, T), w.eq(s.P, P)))
+    w.canary('canary: receiver H ignores the inlets', w.eq(H_out, Q_kw + Q_heat + 1))
+    w.canary("canary: P' = max", w.And(*[w.ge(recv.P, p) for p in P_in], w.gt(recv.P, P_in[0])) if len(P_in) > 1
+             else w.ne(recv.P, P_in[0]))
+    w.note(H_in=H_in, H_out=H_out, P=recv.P, phases=recv.phases, log=[l for _, lg in stubs.values() for l in lg])
+
+
+# --------------------------------------------------------------------------- separate_out(energy_balance=True)
+
+def sep_configs(tier):
+    quick = tier == 'quick'
+    out = []
+    pairs = [('l', ('l', 'A')), ('l', ('l', 'B')), ('l', ('g', 'A')), ('gl', ('l', 'A')), ('gl', ('g', 'B')), ('g', ('g', 'B'))]
+    if not quick:
+        pairs += [('gl', ('gl', 'A')), ('l', ('gl', 'B')), ('s', ('s', 'A')), ('gl', ('gl', 'B'))]
+    for r, o in pairs:
+        for eb in [True, False]:
+            if not eb and quick and (r, o) not in (('l', ('l', 'B')), ('gl', ('l', 'A'))):
+                continue
+            out.append({'name': f'self={r};other={o[0]}{o[1]};eb={eb}', 'self': r, 'other': list(o), 'eb': eb})
+    return out
+
+
+@group('C02/separate_out', configs=sep_configs,
+       functions=['thermosteam._stream:Stream.separate_out', 'thermosteam._stream:Stream.H', 'thermosteam._multi_stream:MultiStream.H',
+                  'thermosteam.indexer:ChemicalIndexer.separate_out', 'thermosteam.indexer:MaterialIndexer.separate_out'],
+       assumptions=['A-models', 'A-root'])
+def separate_out(w, cfg):
+    """Separating a stream out with the energy balance on leaves the difference of the enthalpies."""
+    W.reset_caches()
+    stubs = {}
+
+    def th(pkg):
+        if pkg not in stubs:
+            stubs[pkg] = _stub(w, pkg)
+        return stubs[pkg][0]
+
+    skind, (okind, opkg) = cfg['self'], cfg['other']
+    s, sl = W.stream_on(w, 's', th('A'), KINDS[skind], present=_present('A', KINDS[skind], 'pos+pos'))
+    o, ol = W.stream_on(w, 'o', th(opkg), KINDS[okind], present=_present(opkg, KINDS[okind], 'pos+maybe'))
+    # requires (non-empty remainder, no negative flows): the other stream holds less of every chemical, phase by phase
+    # where the phase exists in `s`, else in total
+    st, ot = W.total_by_CAS(s), W.total_by_CAS(o)
+    if isinstance(KINDS[skind], tuple) and set(KINDS[okind]) <= set(KINDS[skind]):
+        for ph in KINDS[okind]:
+            a, b = W.row_by_CAS(s, ph), W.row_by_CAS(o, ph)
+            for cas in b:
+                w.assume(w.lt(b[cas], a.get(cas, 0.)) if not isinstance(b[cas], float) or b[cas] else True)
+    else:
+        for cas in ot:
+            w.assume(w.lt(ot[cas], st.get(cas, 0.)) if not isinstance(ot[cas], float) or ot[cas] else True)
+    H_s, H_o = s.H, o.H
+    T0, P0 = s.T, s.P
+    pre_o = (W.snapshot(o), o.T, o.P)
+    s.separate_out(o, energy_balance=cfg['eb'])
+    if cfg['eb']:
+        w.ensure("H(self') = H(self) - H(other)", w.eq(s.H, H_s - H_o))
+    else:
+        w.ensure('without energy balance T is left alone', w.eq(s.T, T0))
+    w.ensure('P unchanged', w.eq(s.P, P0))
+    got = W.total_by_CAS(s)
+    w.ensure("flows(self') = flows(self) - flows(other)",
+             w.And(*[w.eq(got[cas], st[cas] - ot.get(cas, 0.)) for cas in st]))
+    w.ensure('separated stream unchanged (flows, phases, T, P)',
+             w.And(W.same_snapshot(w, pre_o[0], W.snapshot(o)), w.eq(o.T, pre_o[1]), w.eq(o.P, pre_o[2])))
+    w.canary("canary: H(self') = H(self) + H(other)", w.eq(s.H, H_s + H_o + 1))
+    w.note(H_s=H_s, H_o=H_o, H_after=s.H, T=s.T)
